@@ -66,7 +66,9 @@ META = {
         "written only in __init__, on an object constructed in the same function, or under a save-before-try / restore-in-finally pair - "
         "run_directive is re-entrant, so re-positioning a shared state object corrupts the enclosing directive's later lines. "
         "R9 also requires document.current_line (docutils' fallback line for nodes a directive leaves unstamped) to be set again after "
-        "every call in the storing function that can re-enter it (nested directives). R10: the directive body / its offset, the option "
+        "every call in the storing function that can re-enter it (nested directives), and every READ of it after such a call to come "
+        "after that re-establishing store; R11 requires the fallback line stamped on a directive's output to be L1-kinded (the directive's "
+        "own line) or that freshly re-established current_line. R10: the directive body / its offset, the option "
         "parser's remaining content and the included text are split with '\\n' semantics, not str.splitlines (which also splits on "
         "form feed, U+2028 ...), because markdown-it's token maps count '\\n' only. "
         "R2 further: (e) the content_offset keyword of a directive instantiation must be absolute (contain an L1/P anchor) - an "
@@ -2685,6 +2687,15 @@ def r9_anchor_fixed(corpus: Corpus, rep: Report, tier: str):
             again = {cfg.stmt_of(n) for n in fi.local_nodes() if isinstance(n, ast.Assign) and n is not st and any(unparse(t) == unparse(tgt) for t in n.targets) and (unparse(n.value) == unparse(st.value) or isinstance(n.value, ast.Name))}
             # exceptional continuations (the directive failed: only a stamped system message is returned) are not judged
             bad = [c for c, cs in reent if cfg.paths_avoiding(cs, "EXIT", lambda n, again=again: n in again or (isinstance(n, tuple) and n[0] == "H"))]
+            reads = [n for n in fi.local_nodes() if isinstance(n, ast.Attribute) and n.attr == "current_line" and isinstance(n.ctx, ast.Load)]
+            for rd in sorted(reads, key=lambda n: (n.lineno, n.col_offset)):
+                rs_ = cfg.stmt_of(rd)
+                stale = [c for c, cs in reent if cs is not rs_ and cfg.paths_avoiding(cs, rs_, lambda n, again=again: n in again or (isinstance(n, tuple) and n[0] == "H"))]
+                kr = f"{_key_owner(corpus, fi).fq}|{short(rs_, 50)} reads current_line after the nested run"
+                if stale:
+                    rep.violation(R9, kr, fi.module.site(rd), f"`{short(rs_, 60)}` uses document.current_line after `{short(stale[0], 40)}` may have run nested directives (each of which moves it) and before it is set back to this directive's line: the value is the line of the last directive nested in the body, not this directive's")
+                else:
+                    rep.ok(R9, kr, fi.module.site(rd), "read after the line was set back")
             if bad:
                 rep.violation(R9, k, site, f"`{short(st, 60)}` sets the line docutils gives to nodes a directive leaves unstamped (container, topic, list-table ...), but `{short(bad[0], 40)}` can run nested directives, each of which overwrites it, and it is not set back before the outer directive's nodes are attached: they take the line of the last directive nested inside them")
             else:
@@ -2851,6 +2862,26 @@ def r11_directive_boundaries(corpus: Corpus, rep: Report, tier: str):
                     missing.append(at)
             if not rets:
                 rep.error(R11, f"{fi.module.site(call)}: {fi.name} does not return the directive's nodes")
+            else:
+                K_ = _kinds(corpus)
+                for n_ in fi.local_nodes():
+                    if isinstance(n_, ast.For) and isinstance(n_.iter, ast.Name) and n_.iter.id == R and isinstance(n_.target, ast.Name):
+                        for m_ in ast.walk(n_):
+                            for t_, tv_ in _assign_pairs(m_):
+                                if isinstance(t_, ast.Attribute) and t_.attr == "line" and isinstance(t_.value, ast.Name) and t_.value.id == n_.target.id:
+                                    kv = f"{_key_owner(corpus, fi).fq}|fallback line of the directive's output = {short(tv_, 30)}"
+                                    if isinstance(tv_, ast.Attribute) and tv_.attr == "current_line":
+                                        rep.ok(R11, kv, fi.module.site(m_), "document.current_line (its freshness is R9's obligation)")
+                                        continue
+                                    kd = K_.kind(tv_, fi)
+                                    if kd == frozenset({L1}):
+                                        rep.ok(R11, kv, fi.module.site(m_), "the directive's own 1-based line")
+                                    elif kd:
+                                        rep.violation(R11, kv, fi.module.site(m_), f"the nodes a directive leaves unstamped are given `{short(tv_, 30)}` ({sorted(kd)}) as their line; it must be the 1-based line of the directive itself")
+                                    else:
+                                        rep.error(R11, f"{fi.module.site(m_)}: cannot tell what line `{short(tv_, 30)}` gives to the directive's output")
+            if not rets:
+                pass
             elif missing:
                 rep.violation(R11, k, fi.module.site(call), f"the nodes a directive returns reach the caller without a fallback .{' / .'.join(missing)}: docutils' setup_child only fills them in when the parent is already attached to the document, which the node of an enclosing directive is not - a container/compound/rubric/list-table nested in another directive ends with line None and source None")
             else:
@@ -3161,6 +3192,21 @@ def mutants(corpus: Corpus):
     if loop is not None:
         src_st = next((m_ for m_ in ast.walk(loop) if isinstance(m_, ast.If) and "source is None" in unparse(m_.test)), None)
         add("c04-directive-output-source-not-stamped", R11, base, src_st, "pass", "nodes returned by the directive run")
+    # the fallback line is this directive's line: a stale document.current_line / a 0-based value is not
+    if loop is not None:
+        asg = next((m_ for m_ in ast.walk(loop) if isinstance(m_, ast.Assign) and any(isinstance(t, ast.Attribute) and t.attr == "line" for t in m_.targets)), None)
+        reset = find_stmt(f, lambda s: isinstance(s, ast.Assign) and any(isinstance(t, ast.Attribute) and t.attr == "current_line" for t in s.targets) and s.lineno < loop.lineno and s.lineno > min((x.lineno for x in f.local_nodes() if isinstance(x, ast.Assign) and any(isinstance(t, ast.Attribute) and t.attr == 'current_line' for t in x.targets)), default=0))
+        if asg is not None and reset is not None and unparse(asg.value) != "self.document.current_line":
+            seg_loop = ast.get_source_segment(base.src, loop)
+            seg_asg = ast.get_source_segment(base.src, asg)
+            seg_reset = ast.get_source_segment(base.src, reset)
+            new_loop = seg_loop.replace(seg_asg, seg_asg.replace(ast.get_source_segment(base.src, asg.value), "self.document.current_line"), 1) + "\n" + " " * loop.col_offset + seg_reset
+            src2 = splice(base.src, loop, new_loop)
+            src2 = splice(src2, reset, "pass")
+            out.append(Mutant("c04-output-stamped-from-stale-current-line", R9, base.rel, src2, expect="reads current_line after the nested run", canary=True))
+            add("c04-output-stamped-with-zero-based-line", R11, base, asg.value, f"{unparse(asg.value)} - 1", "fallback line")
+        else:
+            out.append(("c04-output-stamped-from-stale-current-line", "stamping loop / current_line reset in run_directive changed shape"))
     f = base.func("DocutilsRenderer.render_restructuredtext")
     tr_ = find_stmt(f, lambda s: isinstance(s, ast.Try) and s.finalbody and "parse(" in unparse(s.body[0]))
     if tr_ is not None:
